@@ -29,6 +29,9 @@ func runC18(r *an.Run) {
 		c18ParserMode(r, m)
 	}
 	c18Predicate(r)
+	if m != nil {
+		everyParsedFileReachesApply(r, m, "R4-only-the-marker-predicate-skips-a-file")
+	}
 }
 
 func c18Gating(r *an.Run, m *runModel) {
